@@ -400,7 +400,13 @@ func verifLogRun(w []string) string {
 
 	var run func()
 	var proxyURI *url.URL
-	switch who {
+	switch verifLogExtraWho(who, path) {
+	case "extra": // verif_hooks_log_extra.go: upstream-proxy faults, accept loops
+		r, bad := verifLogExtra(who, path, kv, local, peer, localTCP)
+		if bad != "" {
+			return bad
+		}
+		run = r
 	case "client":
 		socks, err := verifSocksRequest(kv["target"])
 		if err != nil {
